@@ -114,6 +114,34 @@ def while_counters(fn, rec):
     for l, (L, bi, iv) in steppers.items():
         if l not in out and L['header'] in guarded:
             out[l] = (L['header'], iv, None)
+    # a counter stepped once per iteration of a `for` loop (`let mut j = 0; for x in xs { .. j += 1; }`) runs in lock-step with the
+    # loop's iterator: j = k + position of the element, provided the loop draws exactly one element per iteration (the `next` call is
+    # in a block of this loop, not of a nested one, that dominates every latch) from an iterator local defined once outside the loop
+    for l, (L, bi, iv) in steppers.items():
+        if l in out:
+            continue
+        nx = []
+        for bj in L['body']:
+            t = fn.blocks[bj]['term']
+            if t.get('k') != 'call':
+                continue
+            inner = min((L_ for L_ in fn.loops() if bj in L_['body']), key=lambda L_: len(L_['body']))
+            if inner['header'] != L['header']:
+                continue
+            try:
+                c = rec.at(bj).call(t)
+            except Exception:
+                continue
+            if c[0] == 'next':
+                nx.append((bj, c))
+        if len(nx) != 1:
+            continue
+        bj, c = nx[0]
+        it = c[2]
+        ds = fn.defs().get(it, [])
+        if len(ds) != 1 or ds[0][0] in L['body'] or not all(fn.dominates(bj, lt) for lt in L['latches']):
+            continue
+        out[l] = (('for', it, c[1]), iv, None)
     return out
 
 
@@ -172,6 +200,18 @@ class Canon:
         pos = pos if pos is not None else ('pos', L)
         S = norm(S)
         S = self._resolve_local(S)
+        # `window.clone()` of a range value built once and never advanced in place (not mutably borrowed): the same range
+        while S[0] == 'call' and S[1].endswith('Clone::clone') and len(S[2]) == 1:
+            a = S[2][0]
+            while a[0] in ('ref', 'deref'):
+                a = a[1]
+            if a[0] == 'v' and self.fn is not None and a[1] not in getattr(self.fn, 'borrowed_mut', set()) and \
+                    self.fn.local_ty(a[1]).startswith('core::ops::range::Range<') and len(self.fn.defs().get(a[1], [])) == 1:
+                S = self._resolve_local(norm(a))
+            elif a[0] == 'agg' and isinstance(a[1], tuple) and a[1][1].endswith('ops::range::Range') and len(a[2]) == 2:
+                S = a           # expression recovery already replaced the local by the range it was built as
+            else:
+                break
         if S[0] == 'agg' and isinstance(S[1], tuple) and S[1][1].endswith('ops::range::Range') and len(S[2]) == 2:
             lo, hi = self.canon(S[2][0]), self.canon(S[2][1])
             val = pos if lo == ('k', 0) else ('bin', 'Add', lo, pos)
@@ -248,6 +288,15 @@ class Canon:
         t = e[0]
         if t == 'v' and self.fn is not None and e[1] in self.counters():
             h, k0, N = self.counters()[e[1]]
+            if isinstance(h, tuple) and h[0] == 'for':
+                # lock-step with a `for` loop: only when the loop's iterator is a plain positional view (no filter in between: a counter of
+                # iterations after a filter is a rank)
+                nf = len(getattr(self, 'filters', {}).get(h[1], []))
+                r = self.elem_of(h[2], h[1])
+                if r is None or len(getattr(self, 'filters', {}).get(h[1], [])) != nf or getattr(self, 'filters', {}).get(h[1]):
+                    return e
+                self.extents.setdefault(h[1], r[1])
+                return ('pos', h[1]) if k0 == ('k', 0) else ('bin', 'Add', k0, ('pos', h[1]))
             L = ('while', h)
             if N is not None:
                 self.extents[L] = [('sub', self.canon(N), k0)]
